@@ -780,7 +780,26 @@ func init() {
 			})
 			return v, out
 		}
-		sessions := c.scale(250, 2500)
+		// directed histories: keys that are confusable when a raw and a decoded form are mixed up (the raw text of one is the
+		// decoding of the other), in the same member position of consecutive objects; error exits behind an escaped key
+		// followed by another escaped key; the same with arrays of objects
+		type step struct {
+			kind int
+			d    string
+		}
+		var scripts [][]step
+		confusable := [][2]string{{`"a\\tb"`, `"a\tb"`}, {`"\\u0041"`, `"\u0041"`}, {`"A"`, `"\u0041"`}, {`"k\\\\"`, `"k\\"`}, {`"a\u0009b"`, `"a\tb"`}, {`"x\n"`, `"y\t"`}, {`"𝄞"`, `"\ud834\udd1e"`}}
+		for _, pr := range confusable {
+			for _, ord := range [][2]string{{pr[0], pr[1]}, {pr[1], pr[0]}} {
+				scripts = append(scripts,
+					[]step{{1, `{` + ord[0] + `:1}`}, {1, `{` + ord[1] + `:2}`}, {1, `{` + ord[0] + `:3}`}},
+					[]step{{0, `[{` + ord[0] + `:1},{` + ord[1] + `:2}]`}, {0, `{"p":{` + ord[1] + `:1},"q":{` + ord[0] + `:2}}`}},
+					[]step{{1, `{` + ord[0] + `:1e999}`}, {1, `{` + ord[1] + `:1}`}},
+					[]step{{1, `{` + ord[0] + `:[1,`}, {0, `{` + ord[1] + `:{` + ord[0] + `:1}}`}, {1, `{"plain":1}`}, {1, `{` + ord[1] + `:1}`}},
+					[]step{{2, `[{` + ord[0] + `:"\x"}]`}, {2, `[{` + ord[1] + `:1}]`}})
+			}
+		}
+		sessions := c.scale(250, 2500) + len(scripts)
 		var cases []Case
 		for si := 0; si < sessions; si++ {
 			r := &rjson.ValueReader{}
@@ -797,11 +816,19 @@ func init() {
 			if si%25 == 0 {
 				n = 50
 			}
+			var script []step
+			if si < len(scripts) {
+				script = scripts[si]
+				n = len(script)
+			}
 			for oi := 0; oi < n; oi++ {
 				kind := c.Rng.Intn(3)
 				d := docs[c.Rng.Intn(len(docs))]
 				if si%8 == 0 && oi%3 == 0 {
 					d = deep[c.Rng.Intn(len(deep))]
+				}
+				if script != nil {
+					kind, d = script[oi].kind, []byte(script[oi].d)
 				}
 				d = exact(d)
 				if len(d) > 8192 {
